@@ -10,6 +10,7 @@ import (
 	"os"
 	"path/filepath"
 	"regexp"
+	"sort"
 	"strings"
 
 	"golang.org/x/tools/go/ssa"
@@ -513,7 +514,7 @@ func runC15RetAll(c *Ctx) {
 // ---- C16.MATCHER ----
 
 func init() {
-	register(&Rule{ID: "C16.MATCHER", Min: 3, Doc: "the header line PrettyPrint writes (plain, coloured, and following another coloured header) is parsed back by the shipped problem matcher", Run: runC16Matcher})
+	register(&Rule{ID: "C16.MATCHER", Min: 4, Doc: "the header line PrettyPrint writes (plain, coloured, and following another coloured header) is parsed back by the shipped problem matcher", Run: runC16Matcher})
 }
 
 // The header of a diagnostic is a fixed sequence of writes in the entry block of (*Error).PrettyPrint. It is replayed
@@ -521,6 +522,10 @@ func init() {
 // sequence and the reset sequence (fatih/color sets the colour, formats the whole text including a trailing newline, then
 // resets: trusted model of the library), a write through fmt is plain. The shipped matcher must parse every resulting line
 // shape back to the placeholders.
+func attrsOfIsCtor(name string) bool {
+	return name == "github.com/fatih/color.New" || name == "github.com/fatih/color.RGB" || name == "github.com/fatih/color.BgRGB"
+}
+
 func runC16Matcher(c *Ctx) {
 	p := c.P
 	fn := p.Method("Error", "PrettyPrint")
@@ -717,20 +722,136 @@ func runC16Matcher(c *Ctx) {
 	// in -oneline mode the next header follows immediately: what the previous write left after its line break comes first
 	nl2, _ := firstLine(rest + col)
 	check("(*Error).PrettyPrint|coloured header after another header", nl2)
-	// every colour used has a single attribute (the matcher's escape pattern is ESC [ digits m)
+	// every colour used has a single attribute (the matcher's escape pattern is ESC [ digits m): the attributes given to the
+	// constructor plus those added later (Add, AddRGB, AddBgRGB), on the constructed value or on the variable that holds it
+	const colPkg = "github.com/fatih/color."
+	const colRecv = "(*github.com/fatih/color.Color)."
+	attrsOf := func(call *ssa.Call) (int, bool) {
+		switch calleeFullName(&call.Call) {
+		case colPkg + "New":
+			va, ok := variadicArgs(call.Call.Args[0])
+			return len(va), ok
+		case colRecv + "Add":
+			va, ok := variadicArgs(call.Call.Args[1])
+			return len(va), ok
+		case colPkg + "RGB", colPkg + "BgRGB", colRecv + "AddRGB", colRecv + "AddBgRGB":
+			return 5, true
+		}
+		return 0, false
+	}
+	isAdder := func(call *ssa.Call) bool {
+		n := calleeFullName(&call.Call)
+		return n == colRecv+"Add" || n == colRecv+"AddRGB" || n == colRecv+"AddBgRGB"
+	}
+	var funcs []*ssa.Function
 	if init := p.SPkg.Func("init"); init != nil {
-		okAttr := true
-		eachInstr(init, func(_ *ssa.BasicBlock, _ int, in ssa.Instruction) {
-			if call, ok := in.(*ssa.Call); ok && calleeFullName(&call.Call) == "github.com/fatih/color.New" {
-				if va, ok := variadicArgs(call.Call.Args[0]); !ok || len(va) != 1 {
-					okAttr = false
+		funcs = append(funcs, init)
+	}
+	for _, f := range p.Funcs {
+		if inModule(f) && f != p.SPkg.Func("init") {
+			funcs = append(funcs, f)
+		}
+	}
+	type colour struct {
+		n    int
+		pos  token.Pos
+		name string
+	}
+	var colours []*colour
+	held := map[*ssa.Global]*colour{}
+	var laterAdds []*ssa.Call // adders whose receiver is not the constructed value itself
+	badAttr := ""
+	for _, f := range funcs {
+		eachInstr(f, func(_ *ssa.BasicBlock, _ int, in ssa.Instruction) {
+			call, ok := in.(*ssa.Call)
+			if !ok {
+				return
+			}
+			switch name := calleeFullName(&call.Call); {
+			case name == colPkg+"New" || name == colPkg+"RGB" || name == colPkg+"BgRGB":
+				n, ok := attrsOf(call)
+				if !ok {
+					badAttr = "the attributes of a colour are not a literal list (" + p.Pos(call.Pos()) + ")"
+					return
 				}
+				col := &colour{n: n, pos: call.Pos(), name: "the colour made at " + p.Pos(call.Pos())}
+				colours = append(colours, col)
+				// the chain New(...).Add(...)... and the variable that receives the result
+				var cur ssa.Value = call
+				for steps := 0; cur != nil && steps < 8; steps++ {
+					var next ssa.Value
+					for _, ref := range *cur.Referrers() {
+						switch r := ref.(type) {
+						case *ssa.Call:
+							if isAdder(r) && r.Call.Args[0] == cur {
+								k, ok := attrsOf(r)
+								if !ok {
+									badAttr = "attributes added to a colour are not a literal list (" + p.Pos(r.Pos()) + ")"
+								}
+								col.n += k
+								next = r
+							}
+						case *ssa.Store:
+							if g, ok := r.Addr.(*ssa.Global); ok && r.Val == cur {
+								held[g] = col
+								col.name = g.Name()
+							}
+						}
+					}
+					cur = next
+				}
+			case isAdder(call):
+				recv := call.Call.Args[0]
+				for {
+					if prev, ok := recv.(*ssa.Call); ok && isAdder(prev) {
+						recv = prev.Call.Args[0]
+						continue
+					}
+					break
+				}
+				if src, ok := recv.(*ssa.Call); ok && attrsOfIsCtor(calleeFullName(&src.Call)) {
+					return // counted with its constructor
+				}
+				laterAdds = append(laterAdds, call)
 			}
 		})
-		if okAttr {
-			c.ok("error.go|colours with one attribute", fn.Pos(), "every colour is one SGR attribute, i.e. one `ESC [ n m` sequence")
+	}
+	for _, add := range laterAdds {
+		recv := add.Call.Args[0]
+		for {
+			if prev, ok := recv.(*ssa.Call); ok && isAdder(prev) {
+				recv = prev.Call.Args[0]
+				continue
+			}
+			break
+		}
+		k, ok := attrsOf(add)
+		ld, isLoad := recv.(*ssa.UnOp)
+		var g *ssa.Global
+		if isLoad {
+			g, _ = ld.X.(*ssa.Global)
+		}
+		if col := held[g]; ok && g != nil && col != nil {
+			col.n += k
 		} else {
-			c.bad("error.go|colours with one attribute", fn.Pos(), "a colour combines several attributes (`ESC [ 1;31 m`), which the matcher's escape pattern does not cover")
+			badAttr = "attributes are added to a colour that cannot be told (" + p.Pos(add.Pos()) + ")"
+		}
+	}
+	if len(colours) > 0 || badAttr != "" {
+		var multi []string
+		for _, col := range colours {
+			if col.n != 1 {
+				multi = append(multi, fmt.Sprintf("%s has %d attributes", col.name, col.n))
+			}
+		}
+		sort.Strings(multi)
+		switch {
+		case badAttr != "":
+			c.bad("error.go|colours with one attribute", fn.Pos(), badAttr)
+		case len(multi) > 0:
+			c.bad("error.go|colours with one attribute", fn.Pos(), strings.Join(multi, "; ")+": a colour that combines several attributes is written as `ESC [ 1;31 m`, which the matcher's escape pattern does not cover")
+		default:
+			c.ok("error.go|colours with one attribute", fn.Pos(), fmt.Sprintf("each of the %d colours is one SGR attribute (constructor and later Add calls counted), i.e. one `ESC [ n m` sequence", len(colours)))
 		}
 	}
 }
